@@ -54,7 +54,14 @@ type textEdit struct {
 }
 
 func applyEdits(src []byte, edits []textEdit) []byte {
-	sort.Slice(edits, func(i, j int) bool { return edits[i].start > edits[j].start })
+	// from the end of the text backwards; at one position a replacement is applied before an
+	// insertion, so that the insertion ends up in front of the replaced text
+	sort.SliceStable(edits, func(i, j int) bool {
+		if edits[i].start != edits[j].start {
+			return edits[i].start > edits[j].start
+		}
+		return edits[i].end > edits[j].end
+	})
 	out := append([]byte{}, src...)
 	for _, e := range edits {
 		out = append(out[:e.start], append([]byte(e.text), out[e.end:]...)...)
@@ -252,6 +259,40 @@ func (n *normalizer) bodyTextX(fd *ast.FuncDecl, file *ast.File, prefix string, 
 						if fd.Body.Pos() <= v.Pos() && v.Pos() <= fd.Body.End() {
 							edits = append(edits, textEdit{n.off(z.Pos()) - base, n.off(z.End()) - base, prefix + z.Name})
 						}
+					}
+				}
+			case *ast.AssignStmt:
+				// `res, x := f()` at the top of a function may REUSE a parameter or named result
+				// (same scope) and define only x. Inside the block the body is copied into, the
+				// stand-in for that variable lives in an outer scope, where `:=` would declare a
+				// new one and leave the stand-in unset: declare the new variables, then assign.
+				if z.Tok == token.DEFINE && !inLit {
+					reuses := false
+					var decls strings.Builder
+					okTypes := true
+					var missing []*types.Package
+					q := n.qualifierFor(file, &missing)
+					for _, l := range z.Lhs {
+						id, isId := l.(*ast.Ident)
+						if !isId || id.Name == "_" {
+							continue
+						}
+						if o := info.Defs[id]; o != nil {
+							fmt.Fprintf(&decls, "var %s %s; ", id.Name, types.TypeString(o.Type(), q))
+						} else if o := info.Uses[id]; o != nil && params[o] {
+							reuses = true
+						}
+					}
+					if reuses {
+						if len(missing) > 0 {
+							okTypes = false
+						}
+						if !okTypes {
+							okAll = false
+							return false
+						}
+						edits = append(edits, textEdit{n.off(z.Pos()) - base, n.off(z.Pos()) - base, decls.String()})
+						edits = append(edits, textEdit{n.off(z.TokPos) - base, n.off(z.TokPos) - base + 2, "="})
 					}
 				}
 			case *ast.LabeledStmt:
@@ -973,11 +1014,24 @@ func (n *normalizer) hoistTargets(exprs []ast.Expr) ([]*ast.CallExpr, bool) {
 		switch x := e.(type) {
 		case *ast.CallExpr:
 			if n.isTarget(x) {
-				// arguments of the target are rendered inside the inlined block; nested targets wait for the next round
+				// arguments of the target are rendered inside the inlined block. A target nested in the
+				// arguments goes first: this round hoists the inner calls (operands are evaluated before
+				// the call), the outer call follows in the next round
+				nested := false
 				for _, a := range x.Args {
 					if contains(a) {
-						ok = false
+						nested = true
 					}
+				}
+				if nested {
+					if sel, isSel := x.Fun.(*ast.SelectorExpr); isSel && n.pkg.TypesInfo.Selections[sel] != nil {
+						walk(sel.X)
+					}
+					for _, a := range x.Args {
+						walk(a)
+					}
+					seenImpure = true
+					return
 				}
 				if seenImpure {
 					ok = false // moving the target in front of the statement would overtake an earlier call
